@@ -348,6 +348,9 @@ func (t *jsTask) runAll(yield func()) {
 }
 
 func runC20(c *Ctx) []Violation {
+	if c.T.Weighted("c20.part", 3, 1) == 1 {
+		return runC20Read(c)
+	}
 	env := baseEnv(c)
 	c.T.Begin("c20.cfg")
 	family := "general"
